@@ -170,3 +170,104 @@ Theorem mx_trylock_call_spec ws r after :
   | _ => after = firstn (length after) ws
   end.
 Proof. apply mx_trylock_env_ok. exact I. Qed.
+
+(* ------------------------------------------------------------------ Part 2: mutual exclusion *)
+Local Open Scope nat_scope.
+
+Lemma mx_w_eqb_eq a b : mx_w_eqb a b = true -> a = b.
+Proof.
+  destruct a as [l1 k1 s1 n1], b as [l2 k2 s2 n2]. unfold mx_w_eqb. cbn [xl xk xs xn].
+  rewrite !Bool.andb_true_iff. intros [[[H1 H2] H3] H4].
+  apply Bool.eqb_prop in H1, H2, H3. apply Nat.eqb_eq in H4. subst. reflexivity.
+Qed.
+
+Lemma mx_is_zero_eq r : mx_is_zero r = true -> r = mx_zero.
+Proof. apply mx_w_eqb_eq. Qed.
+
+(* weights *)
+Definition mx_wH (th : mx_thread) : nat := if xh th then 1 else 0.
+Definition mx_wW (th : mx_thread) : nat := match xpc th with XLWoke _ _ => 1 | _ => 0 end.
+Definition mx_wS (th : mx_thread) : nat :=
+  match xpc th with XLLoad _ _ true _ => 1 | XLCas _ true _ _ => 1 | _ => 0 end.
+Definition mx_wP (th : mx_thread) : nat := match xpc th with XURel false => 1 | _ => 0 end.
+Definition mx_wD (th : mx_thread) : nat := match xpc th with XLHand _ => 1 | XURel true => 1 | _ => 0 end.
+
+Definition mx_sum (f : mx_thread -> nat) (l : list mx_thread) : nat :=
+  fold_right (fun th a => f th + a) 0 l.
+
+Lemma mx_sum_app f l1 l2 : mx_sum f (l1 ++ l2) = mx_sum f l1 + mx_sum f l2.
+Proof. unfold mx_sum. induction l1 as [|x l IH]; simpl; [reflexivity|]. rewrite IH. lia. Qed.
+
+Lemma mx_sum_split f l i th :
+  nth_error l i = Some th ->
+  mx_sum f l = f th + (mx_sum f (firstn i l) + mx_sum f (skipn (S i) l)).
+Proof.
+  unfold mx_sum. revert i. induction l as [|x l IH]; intros i H; destruct i; cbn [nth_error] in H; try discriminate.
+  - inversion H; subst. simpl. lia.
+  - specialize (IH i H). simpl. simpl in IH. lia.
+Qed.
+
+Lemma mx_sum_set f l i th' :
+  mx_sum f (firstn i l ++ th' :: skipn (S i) l) = f th' + (mx_sum f (firstn i l) + mx_sum f (skipn (S i) l)).
+Proof. rewrite mx_sum_app. unfold mx_sum. simpl. lia. Qed.
+
+(* local facts of a thread parked at pc *)
+Definition mx_lok (th : mx_thread) : Prop :=
+  match xpc th with
+  | XLLoad _ _ awoke stv => stv = true -> awoke = true
+  | XLCas _ awoke stv _ => stv = true -> awoke = true
+  | XLSpin _ old => xk old = false /\ xs old = false
+  | XT3 old => xl old = false /\ xk old = false /\ xs old = false
+  | XU1 => xh th = true
+  | _ => True
+  end.
+
+Definition mx_b2n (b : bool) : nat := if b then 1 else 0.
+
+(* global invariant on: word, tokens, and the sums of the weights
+   H holders, W woken-not-yet-loaded, S awake slow-path threads owning mutexWoken,
+   P pending normal-mode Semrelease, D hand-off in progress (XLHand, pending hand-off Semrelease) *)
+Definition mx_J (r : mx_w) (t H W S P D : nat) : Prop :=
+  H = mx_b2n (xl r) /\
+  (xs r = false -> t + P + W + S <= mx_b2n (xk r) /\ D = 0) /\
+  (xs r = true -> S = 0 /\ P = 0 /\ t + W + D <= 1 /\ (xl r = true -> t + W + D = 0)).
+
+Ltac mx_conds :=
+  repeat match goal with
+  | H : context [if ?c then _ else _] |- _ =>
+      lazymatch c with
+      | mx_w_eqb ?a ?b => let E := fresh "E" in destruct (mx_w_eqb a b) eqn:E; [apply mx_w_eqb_eq in E|]
+      | mx_is_zero ?a => let E := fresh "E" in destruct (mx_is_zero a) eqn:E; [apply mx_is_zero_eq in E|]
+      | _ => let E := fresh "E" in destruct c eqn:E
+      end
+  end.
+
+Lemma mx_step_th_J r t th r' t' th' ev RH RW RS RP RD :
+  mx_lok th ->
+  mx_J r t (mx_wH th + RH) (mx_wW th + RW) (mx_wS th + RS) (mx_wP th + RP) (mx_wD th + RD) ->
+  mx_step_th r t th = (r', t', th', ev) ->
+  mx_lok th' /\
+  mx_J r' t' (mx_wH th' + RH) (mx_wW th' + RW) (mx_wS th' + RS) (mx_wP th' + RP) (mx_wD th' + RD).
+Proof.
+  destruct th as [pc h todo]. unfold mx_step_th, mx_lok, mx_J, mx_wH, mx_wW, mx_wS, mx_wP, mx_wD, mx_b2n.
+  cbn [xpc xh xtodo]. intros L J Hs.
+  destruct pc; [destruct todo as [|[sp st| |] rest]| | | | | destruct t as [|t0] | | | | | | | | |];
+    mx_conds; inversion Hs; subst; clear Hs;
+    cbn [xpc xh xtodo mx_mkth mx_set_l mx_slow_new mx_zero xl xk xs xn] in *;
+    repeat match goal with o : mx_w |- _ => destruct o as [?l ?k ?s ?n] end; cbn [xl xk xs xn] in *;
+    repeat match goal with
+    | H : {| xl := _; xk := _; xs := _; xn := _ |} = {| xl := _; xk := _; xs := _; xn := _ |} |- _ => inversion H; clear H; subst
+    | H : {| xl := _; xk := _; xs := _; xn := _ |} = ?o |- _ => subst o
+    | H : ?o = {| xl := _; xk := _; xs := _; xn := _ |} |- _ => subst o
+    end;
+    cbn [xl xk xs xn] in *;
+    repeat match goal with b : bool |- _ => clear b end;
+    repeat match goal with b : bool |- _ => destruct b end;
+    cbn in *; repeat split; intros; try discriminate; try lia;
+    repeat match goal with
+    | H : _ /\ _ |- _ => destruct H
+    | H : ?a = ?a -> _ |- _ => specialize (H eq_refl)
+    | H : false = true -> _ |- _ => clear H
+    | H : true = false -> _ |- _ => clear H
+    end; try discriminate; try lia; try congruence.
+Qed.
